@@ -222,6 +222,9 @@ def identity_laws(run: core.Run) -> None:
             # text with a backslash before r / n (a LaTeX label, a Windows-style path): not a line break
             "backslash-r": one({"label": ["\\rho", "data\\runs.csv"]}),
             "backslash-n": one({"label": ["\\nho", "data\\nuns.csv"]}),
+            # the same visible text in two Unicode normal forms is two different strings (and two different run contexts)
+            "unicode-nfc": one({"label": ["caf\u00e9", "x"]}),
+            "unicode-nfd": one({"label": ["cafe\u0301", "x"]}),
         })
         seen_ids: Dict[str, str] = {}
         for name, rs in plans.items():
